@@ -275,6 +275,15 @@ static JSON mutateData(vh::Rng& rng, JSON doc) {
     if (rng.chance(1, 6)) e.erase("value");
     if (rng.chance(1, 6)) e.erase("texts");
     if (rng.chance(1, 8)) e["wasCalculated"] = !e["wasCalculated"].get<bool>();
+    // texts on any kind of constituent (ignored unless it is a base set), sometimes not even an array
+    // (a non-array only where it is ignored: iterating a non-array JSON value is outside the modelled class)
+    if (!e.contains("texts") && rng.chance(1, 6)) {
+      bool baseSet = true;
+      if (doc.contains("items") && e.contains("entityUID")) for (const auto& item : doc["items"])
+        if (item.contains("entityUID") && item["entityUID"] == e["entityUID"] && item.contains("cstType"))
+          baseSet = item["cstType"] == "basic" || item["cstType"] == "constant";
+      if (!baseSet && rng.chance(1, 3)) e["texts"] = "no array"; else e["texts"] = JSON::array({ "t1", "t2" });
+    }
     if (e.contains("value") && e["value"].is_array() && !e["value"].empty() && rng.chance(1, 6)) {   // damaged table
       auto& tbl = e["value"];
       if (rng.chance(1, 2)) tbl += JSON::array({ 1, 1 }); else if (!tbl[0].empty()) tbl[0][0] = tbl[0][0].get<int>() + 1;
@@ -284,7 +293,14 @@ static JSON mutateData(vh::Rng& rng, JSON doc) {
   }
   data = std::move(kept);
   if (rng.chance(1, 40)) { if (!data.empty()) data[0].erase("wasCalculated"); }
-  if (rng.chance(1, 40)) data += JSON{ {"entityUID", 424242}, {"wasCalculated", false} };     // unknown uid: Schema::At throws
+  // an element for a uid the schema does not have is skipped, whatever else it contains
+  if (rng.chance(1, 8)) {
+    JSON ghost{ {"entityUID", 424242} };
+    if (rng.chance(1, 2)) ghost["wasCalculated"] = rng.chance(1, 2);
+    if (rng.chance(1, 2)) ghost["value"] = rng.chance(1, 2) ? JSON("?") : JSON::array({ JSON::array({ 1 }) });
+    if (rng.chance(1, 3)) ghost["texts"] = 7;
+    if (rng.chance(1, 2) || data.empty()) data += ghost; else data.insert(data.begin(), ghost);
+  }
   return doc;
 }
 static void docLoadModel(const JSON& doc) {
